@@ -26,14 +26,14 @@ SUCCESSIONS = (661, 816, 604)
 def run(ctx):
     repo = ctx.repo
     ki = kindrules.infer(repo, PB, kindrules.prebuild_accept_kinds(repo), kindrules.prebuild_ctor_params(repo))
-    kindrules.kinds_rule(ctx, 'C06-KINDS', PB, 400, ki)
-    chain_rule(ctx)
-    subtype_rule(ctx, ki)
-    return_rule(ctx, ki)
-    pos_rule(ctx)
-    types_rule(ctx, ki)
-    scope_rule(ctx)
-    oblig_rule(ctx, ki)
+    ctx.guard(kindrules.kinds_rule, ctx, 'C06-KINDS', PB, 400, ki)
+    ctx.guard(chain_rule, ctx)
+    ctx.guard(subtype_rule, ctx, ki)
+    ctx.guard(return_rule, ctx, ki)
+    ctx.guard(pos_rule, ctx)
+    ctx.guard(types_rule, ctx, ki)
+    ctx.guard(scope_rule, ctx)
+    ctx.guard(oblig_rule, ctx, ki)
     ctx.assume('uniqueness of generated ids and is_consistent() of a concrete program are not decided')
     ctx.assume('name resolution succeeds (well-formed, name-resolved programs): look-ups such as o_obj()/s_dt() return an instance')
     return ('Kind inference over prebuild.py (helper return summaries, navigation results, subtype sets from the schema) and '
